@@ -31,7 +31,7 @@ impl Check for C02 {
     fn total_cases(&self, tier: Tier) -> u64 {
         match tier {
             Tier::Quick => 150_000,
-            Tier::Thorough => 3_000_000,
+            Tier::Thorough => 8_000_000,
         }
     }
     fn strategy(&self, _tier: Tier) -> BoxedStrategy<MCase> {
